@@ -240,9 +240,11 @@ Record expect := mkExpect {
 Definition of_thread (t : sbytes) (ms : list dmetric) : list dmetric :=
   filter (fun m => match thread_of m with Some v => sb_eqb v t | None => false end) ms.
 
-Definition stream_ok (x : expect) (s : sbytes) : bool :=
+(* the stream against the log: whole frames; the metadata the exporter knew at the accept (any
+   order, each once) and then the metric messages it drained after the accept, in order, none
+   twice, none torn; all of them if nothing was discarded for the client and it stayed *)
+Definition stream_log_ok (x : expect) (s : sbytes) : bool :=
   let '(bodies, rest) := split_frames s in
-  (* whole frames only (a client that left may have stopped reading anywhere) *)
   (if x_stay x then match rest with [] => true | _ => false end else true) &&
   match decode_all bodies with
   | None => false
@@ -253,20 +255,30 @@ Definition stream_ok (x : expect) (s : sbytes) : bool :=
     | Some ks =>
       let kb := skipn (length ms) bodies in
       let exact := x_stay x && x_full x in
-      (* against the log: the metadata known at accept (any order, each once), then the metric
-         frames fanned out after the accept, in order, none twice, none torn *)
       (if exact then permb dmeta_eqb ms (x_log_metas x) else submsetb dmeta_eqb ms (x_log_metas x)) &&
-      (if exact then list_eqb sb_eqb kb (x_metric_bodies x) else subseqb sb_eqb kb (x_metric_bodies x)) &&
-      (* against the harness: name, type, unit, description of every describe; name, labels,
-         operation and value of every emission, per emitting thread in emission order *)
-      (if exact then permb dmeta_eqb ms (x_metas x) else submsetb dmeta_eqb ms (x_metas x)) &&
+      (if exact then list_eqb sb_eqb kb (x_metric_bodies x) else subseqb sb_eqb kb (x_metric_bodies x))
+    end
+  end.
+
+(* the log against the harness (no stream involved): what the exporter took from its channel is
+   what was described before the client connected and, per emitting thread and in emission order,
+   what was emitted after it was accepted, with name, labels, operation and value intact *)
+Definition log_harness_ok (x : expect) : bool :=
+  permb dmeta_eqb (x_log_metas x) (x_metas x) &&
+  match decode_all (x_metric_bodies x) with
+  | None => false
+  | Some es =>
+    match all_metrics es with
+    | None => false
+    | Some ks =>
       forallb (fun k => match thread_of k with
                         | Some t => existsb (fun tl => sb_eqb (fst tl) t) (x_threads x)
                         | None => false end) ks &&
-      forallb (fun tl => if exact then list_eqb dmetric_eqb (of_thread (fst tl) ks) (snd tl)
-                         else subseqb dmetric_eqb (of_thread (fst tl) ks) (snd tl)) (x_threads x)
+      forallb (fun tl => list_eqb dmetric_eqb (of_thread (fst tl) ks) (snd tl)) (x_threads x)
     end
   end.
+
+Definition stream_ok (x : expect) (s : sbytes) : bool := stream_log_ok x s && log_harness_ok x.
 
 (* every event boundary: client_count = |clients| and should_send = (|clients| > 0) *)
 Definition obs_ok (obs : list (Z * Z * bool)) : bool :=
